@@ -72,6 +72,20 @@ def neg_creeps(chk):
     chk.expect_fails(r, "MC_Chain[D_NextCreeps] uniform NN n<=63 (int8 overflow)", None)
 
 
+def beyond_limit_order(chk):
+    """C04 beyond the sentinel (chains of 64..66 handlers that never abort): every handler still runs, once, in order"""
+    out = os.path.join(core.scratch(), "chain-order.ndjson")
+    with open(out, "w") as fo:
+        def cb(o):
+            fo.write(json.dumps(o, separators=(",", ":")))
+            fo.write("\n")
+        res = core.run_tlc("MC_Chain", cfg_text=ccfg("oddhead", 64, 66, ["R", "NN"], invs=()), timeout=600, keep_lines=False, line_cb=cb)
+    chk.add_tlc(res, "beyond the sentinel: n=64..66, N everywhere except R / NN at positions 1..3; order of the handlers only")
+    s = core.run_harness(["chain", "replay", out], env={"VERIF_SEED": chk.seed, "VERIF_CHAIN_ORDER_ONLY": "1"}, timeout=3000)
+    chk.absorb(s, "chain", only={"log", "enter", "crash"})
+    os.remove(out)
+
+
 def beyond_limit(chk, scripts):
     """chains longer than the sentinel (possible because global middleware is not counted at registration): F20"""
     out = os.path.join(core.scratch(), "chain-f20.ndjson")
@@ -103,6 +117,7 @@ def run(chk):
     library(chk, ORDER, maxn=3 if thorough else 2, extra=("N", "R"))
     from . import c08
     c08.redispatch(chk, ORDER)     # HandleContext from the last and from a middle handler of a chain: every handler at most once
+    beyond_limit_order(chk)
     chk.exhaustive = True
     recorded(chk, 3000 if thorough else 400, ORDER)
     if thorough:   # the composition: registration programs with scripted handlers + request histories on a caching router
